@@ -10,8 +10,9 @@
    the decrypted flag from the empty database.  [first_fire v k r] is the earliest log of the
    view up to block k that lies after the registration block of r, not after its expiry, and
    matches; [should_fire v a k f] says f is the fired row of a registration of blocks [a, k]
-   whose first_fire exists.  [tuniverse_ok] bundles the C15 well-formedness of the views and the D9
-   exclusion (no registration below the first synced block).  The D10 exclusion is exactly the
+   whose first_fire exists.  [tuniverse_ok] is the C15 well-formedness of the views (since the D9
+   fixes no exclusion of registrations below the sync start is needed: the flavour clamps the start
+   of a sync, fl_unclamped = false).  The D10 exclusion is exactly the
    D10 shape: [td10_free fl tginit history] says that no Sync of the history goes through a range
    [s, e] (the ranges GetSyncRanges gives it from its start position, after a possible rollback)
    in which a trigger is registered and a matching log of its window lies later in the same range
@@ -62,11 +63,11 @@ Proof. vm_compute. split; reflexivity. Qed.
    the earliest matching log of its window, and (3) every registered trigger that is not marked
    decrypted and has a matching log in its window up to k has its fired row.
    _partial: the hypothesis [td10_free] excludes exactly the D10 shape (a registration and a later
-   matching log of its window inside one processed range) and [tuniverse_ok] contains the D9
-   exclusion; without td10_free the statement is false (C16_batching_refuted). *)
+   matching log of its window inside one processed range); without td10_free the statement is
+   false (C16_batching_refuted). *)
 Theorem C16_fired_exact_partial :
   forall (LogT : Type) (match_log : bytes -> LogT -> bool) (fl : flavour),
-    0 < fl_range fl -> 0 <= fl_depth fl -> 0 <= fl_first_start fl ->
+    0 < fl_range fl -> 0 <= fl_depth fl -> 0 <= fl_first_start fl -> fl_unclamped fl = false ->
   forall (ops : list (top LogT)) (v : view (titem LogT)) (orders : list bool) (rpc db : list fault),
     let history := ops ++ [TSync v orders rpc db] in
     tuniverse_ok fl (top_views history) -> theads_ok match_log fl tginit history ->
@@ -86,7 +87,7 @@ Print Assumptions C16_fired_exact_partial.
    has a matching log within (range limit - 1) blocks after its registration block. *)
 Theorem C16_d10_free_from_chains :
   forall (LogT : Type) (match_log : bytes -> LogT -> bool) (fl : flavour),
-    0 < fl_range fl -> 0 <= fl_depth fl -> 0 <= fl_first_start fl ->
+    0 < fl_range fl -> 0 <= fl_depth fl -> 0 <= fl_first_start fl -> fl_unclamped fl = false ->
   forall ops : list (top LogT),
     tuniverse_ok fl (top_views ops) ->
     (forall u, In u (top_views ops) -> no_early_match match_log (fl_range fl) u) ->
@@ -147,8 +148,8 @@ Qed.
 Theorem C16_batching_independent_partial :
   forall (LogT : Type) (match_log : bytes -> LogT -> bool) (fl1 fl2 : flavour)
          (ops1 ops2 : list (top LogT)) (v : view (titem LogT)) (o1 o2 : list bool) (rpc1 db1 rpc2 db2 : list fault),
-    0 < fl_range fl1 -> 0 <= fl_depth fl1 -> 0 <= fl_first_start fl1 ->
-    0 < fl_range fl2 -> 0 <= fl_depth fl2 -> fl_first_start fl2 = fl_first_start fl1 ->
+    0 < fl_range fl1 -> 0 <= fl_depth fl1 -> 0 <= fl_first_start fl1 -> fl_unclamped fl1 = false ->
+    0 < fl_range fl2 -> 0 <= fl_depth fl2 -> fl_first_start fl2 = fl_first_start fl1 -> fl_unclamped fl2 = false ->
     let h1 := ops1 ++ [TSync v o1 rpc1 db1] in
     let h2 := ops2 ++ [TSync v o2 rpc2 db2] in
     tuniverse_ok fl1 (top_views h1) -> theads_ok match_log fl1 tginit h1 -> td10_free match_log fl1 tginit h1 -> no_decrypt LogT h1 ->
